@@ -98,6 +98,12 @@ impl PayloadEncode for &UdpDatagram {
 
     #[inline]
     fn wire_valid(&self) -> Result<(), InvalidStructureError> {
+        // The UDP length field is 16 bits wide and includes the 8 byte header.
+        if UdpDatagramLayout::HEADER_SIZE_BYTES + self.payload.len() > u16::MAX as usize {
+            return Err(InvalidStructureError::from(
+                "UDP datagram size exceeds maximum encodeable value of 65535 bytes",
+            ));
+        }
         Ok(())
     }
 
